@@ -205,7 +205,7 @@ func parseCompacted(jwsCompact string, opts *jwsParseOpts) (*JSONWebSignature, e
 		return nil, err
 	}
 
-	signature, err := base64.RawURLEncoding.DecodeString(parts[jwsSignaturePart])
+	signature, err := decodeSegment(parts[jwsSignaturePart], true)
 	if err != nil {
 		return nil, fmt.Errorf("decode base64 signature: %w", err)
 	}
@@ -222,12 +222,27 @@ func parseCompacted(jwsCompact string, opts *jwsParseOpts) (*JSONWebSignature, e
 	}, nil
 }
 
+// decodeSegment decodes one segment of a compact JWS: base64url without padding or line breaks and, if strict,
+// without stray bits (RFC 7515, section 2). The standard decoder skips CR / LF and ignores the unused bits of the
+// last character.
+func decodeSegment(segment string, strict bool) ([]byte, error) {
+	if strings.ContainsAny(segment, "\r\n") {
+		return nil, errors.New("line break in base64url segment")
+	}
+
+	if strict {
+		return base64.RawURLEncoding.Strict().DecodeString(segment)
+	}
+
+	return base64.RawURLEncoding.DecodeString(segment)
+}
+
 func parseCompactedPayload(jwsPayload string, opts *jwsParseOpts) ([]byte, error) {
 	if len(opts.detachedPayload) > 0 {
 		return opts.detachedPayload, nil
 	}
 
-	payload, err := base64.RawURLEncoding.DecodeString(jwsPayload)
+	payload, err := decodeSegment(jwsPayload, true)
 	if err != nil {
 		return nil, fmt.Errorf("decode base64 payload: %w", err)
 	}
@@ -240,7 +255,7 @@ func parseCompactedPayload(jwsPayload string, opts *jwsParseOpts) ([]byte, error
 }
 
 func parseCompactedHeaders(parts []string) (jws.Headers, error) {
-	headersBytes, err := base64.RawURLEncoding.DecodeString(parts[jwsHeaderPart])
+	headersBytes, err := decodeSegment(parts[jwsHeaderPart], false)
 	if err != nil {
 		return nil, fmt.Errorf("decode base64 header: %w", err)
 	}
